@@ -248,12 +248,12 @@ reg(C03("C03"))
 
 
 class C05(TreeCheck):
-    obligations = [("main", "ComposeGram", "parseFull_gramI"), ("main", "ComposeGram", "parseFull_gramI_statement_proved"), ("main", "ComposeGram", "parseBlocks_entOKDoc"), ("main", "InlineFuel", "C04_gramI_doc"), ("main", "InlineFuel", "C04_titleNeedsDest"), ("main", "GramInline", "parseFull_gramI_partial"), ("main", "GramInline", "parseFull_noLinkInLink"), ("main", "GramInline", "parseFull_kinds"), ("main", "GramInline", "parseFull_gramI_titleDest_partial"), ("main", "GIB", "parseBlocks_noMixed"), ("main", "TieKinds", "tie_kinds"), ("main", "L2CCfull", "parseFull_contain"), ("main", "L2Kind2", "parseBlocks_kinds"), ("main", "NoUnpFull", "C05_noUnparsed"),
+    obligations = [("main", "C05Full", "C05_full"), ("main", "C05c", "parseBlocks_np"), ("main", "ComposeGram", "parseFull_gramI"), ("main", "ComposeGram", "parseFull_gramI_statement_proved"), ("main", "ComposeGram", "parseBlocks_entOKDoc"), ("main", "InlineFuel", "C04_gramI_doc"), ("main", "InlineFuel", "C04_titleNeedsDest"), ("main", "GramInline", "parseFull_gramI_partial"), ("main", "GramInline", "parseFull_noLinkInLink"), ("main", "GramInline", "parseFull_kinds"), ("main", "GramInline", "parseFull_gramI_titleDest_partial"), ("main", "GIB", "parseBlocks_noMixed"), ("main", "TieKinds", "tie_kinds"), ("main", "L2CCfull", "parseFull_contain"), ("main", "L2Kind2", "parseBlocks_kinds"), ("main", "NoUnpFull", "C05_noUnparsed"),
                    ("main", "Clos12full", "C12_closure"), ("main", "Rec16", "ordered_number_range"),
                    ("main", "GramBlocks", "parseBlocks_gramBlocks"), ("main", "GramBlocks", "parseFull_gramBlocks")]
     proj = staticmethod(proj_kinds)
     what = "node kinds and accessor values"
-    assumptions = ["partial: proved for every input: canContain closure, entry kinds per block kind, no Unparsed node, reference closure, item number range, and all block-level clauses of the grammar (parseFull_gramBlocks: every list item starts with exactly one marker, markers and thematic breaks are childless, a definition is [label; destination] or [label; destination; title], list/item agreement on ordered and on tight, heading levels 1-6 / 1-2); the inline-level clauses are proved for every input too (parseFull_gramI_partial: in every paragraph and heading only phrasing content; link/image tails nothing | [label] | [destination] | [destination][title]; reference links without destination/title; children of code spans, link parts, autolinks and HTML tags of the right kinds; childless leaves; no Unparsed node; parseFull_noLinkInLink: no link inside a link) and the last clause (a title always follows a destination) is now proved for every input as well (ComposeGram.parseFull_gramI = GramInline.parseFull_gramI_statement, from the fuel adequacy of the link scanner, InlineFuel, and the well-formedness of the block layer's entry lists, EntriesOK); the accessor agreement is decided by the correspondence, the grammar oracle and the formal statement evaluated on the implementation's trees"]
+    assumptions = ["full on the model: C05Full.C05_full = Props.C05_statement: for every input every root block of parseFull satisfies the whole grammar gramB (accessor agreement: heading levels, item numbers; lists, items, markers, quotes, definitions, paragraphs/headings with phrasing inlines only, code and HTML blocks with their verbatim leaf kinds, info string first and fenced only; the inline grammar gramI on the inline children of every block) and is neither a list item nor a list marker", "the parts: proved for every input: canContain closure, entry kinds per block kind, no Unparsed node, reference closure, item number range, and all block-level clauses of the grammar (parseFull_gramBlocks: every list item starts with exactly one marker, markers and thematic breaks are childless, a definition is [label; destination] or [label; destination; title], list/item agreement on ordered and on tight, heading levels 1-6 / 1-2); the inline-level clauses are proved for every input too (parseFull_gramI_partial: in every paragraph and heading only phrasing content; link/image tails nothing | [label] | [destination] | [destination][title]; reference links without destination/title; children of code spans, link parts, autolinks and HTML tags of the right kinds; childless leaves; no Unparsed node; parseFull_noLinkInLink: no link inside a link) and the last clause (a title always follows a destination) is now proved for every input as well (ComposeGram.parseFull_gramI = GramInline.parseFull_gramI_statement, from the fuel adequacy of the link scanner, InlineFuel, and the well-formedness of the block layer's entry lists, EntriesOK); the accessor agreement is decided by the correspondence, the grammar oracle and the formal statement evaluated on the implementation's trees"]
 
     def jobs(self, seed, tier):
         js = TreeCheck.jobs(self, seed, tier)
@@ -671,8 +671,8 @@ reg(C14("C14"))
 # ---- C16 / C09 -------------------------------------------------------------------------------------
 class C16(Check):
     rule = DOC_RULE + "; weight on lists ending in blank lines, unclosed fences, HTML blocks, setext headings, definitions followed by text"
-    obligations = [("main", "ReparseRun", "C16_cleanCut_partial"), ("main", "Reparse", "C16_checked_partial"), ("main", "ReparseEof", "reparse_clean_call_reduce"), ("main", "ReparseLocal", "cutOf_prefix"), ("main", "ReparseDefs", "C16_blocks_literal_refuted"), ("main", "SliceReparse", "C16_reparse_paras"), ("main", "SliceReparse", "C16_two_paragraphs"), ("main", "SliceReparse", "C16_reparse_last"), ("main", "L2BndS", "parseBlocks_bounds"), ("main", "C01a", "C01_ordered"), ("stream", "C14b", "nb_shift")]
-    assumptions = ["the property is proved end to end on a slice only: for any number of one-line text paragraphs separated by a blank line, every root's Source parsed alone gives exactly that root (line 1, offset 0) — up to the model's internal lastLineBlank flag of a root followed by a blank line, which no accessor exposes (SliceReparse.C16_reparse_paras; the literal statement including that flag is refuted, ex_reparse_flag); for general inputs without NUL, at the block layer: every root block that is closed at the position read so far (closed by its own last line or by end of input: ATX headings, thematic breaks, setext headings, closed fences, ended HTML blocks, last roots; the executable condition cleanCut) re-parses to itself including the flag (ReparseRun.C16_cleanCut_partial); for a root cut at the start of the line that closed it the property is reduced to a one-line statement, closing by end of input = closing by that line (ReparseEof.reparse_clean_call_reduce), which is not proved, and roots coming from pending children are not covered; the statement with the root's lastLineBlank flag compared literally is refuted ('- a', blank line, 'para': ReparseDefs.C16_blocks_literal_refuted — the flag is internal, no accessor exposes it); besides that what is machine-checked are the supporting invariants (root blocks are cut at ends bounded by the line read; shifting by a blank prefix); the property itself is decided by the re-parse oracle on the implementation and by the full-tree correspondence"]
+    obligations = [("main", "ReparseRun", "C16_cleanCut_partial"), ("main", "ReparseE2L", "C16_E2_call_all_partial"), ("main", "ReparseLineL", "lineB_all"), ("main", "ReparseDecomp", "line_decomp"), ("main", "ReparseSC", "SC_list"), ("main", "ReparseShift", "shift_line"), ("main", "Reparse", "C16_checked_partial"), ("main", "ReparseEof", "reparse_clean_call_reduce"), ("main", "ReparseLocal", "cutOf_prefix"), ("main", "ReparseDefs", "C16_blocks_literal_refuted"), ("main", "SliceReparse", "C16_reparse_paras"), ("main", "SliceReparse", "C16_two_paragraphs"), ("main", "SliceReparse", "C16_reparse_last"), ("main", "L2BndS", "parseBlocks_bounds"), ("main", "C01a", "C01_ordered"), ("stream", "C14b", "nb_shift")]
+    assumptions = ["the property is proved end to end on a slice only: for any number of one-line text paragraphs separated by a blank line, every root's Source parsed alone gives exactly that root (line 1, offset 0) — up to the model's internal lastLineBlank flag of a root followed by a blank line, which no accessor exposes (SliceReparse.C16_reparse_paras; the literal statement including that flag is refuted, ex_reparse_flag); for general inputs without NUL, at the block layer: every root block that is closed at the position read so far (closed by its own last line or by end of input: ATX headings, thematic breaks, setext headings, closed fences, ended HTML blocks, last roots; the executable condition cleanCut) re-parses to itself including the flag (ReparseRun.C16_cleanCut_partial); for a root cut at the start of the line that closed it the property is reduced to a one-line statement, closing by end of input = closing by that line (ReparseEof.reparse_clean_call_reduce), and that equivalence is proved for paragraphs not beginning with '[', code blocks, HTML blocks, block quotes and lists (ReparseLineL.lineB_all: closing by the following line = closing top-down at the line start, up to the lastLineBlank flag; ReparseSC.SC_list: closing the open spine bottom-up = closeBlock top-down; hence ReparseE2L.C16_E2_call_all_partial / Reparse2.C16_lineCut_partial: such a root re-parses to itself); roots from pending children are reduced to roots of the re-parse of a suffix document (ReparseDecomp.line_decomp, Reparse3.roots_after_lineCut_partial); not proved: roots that are link reference definitions or are cut inside a paragraph holding definitions, and the assembly of the per-cut theorems into one statement for every root of every input; the statement with the root's lastLineBlank flag compared literally is refuted ('- a', blank line, 'para': ReparseDefs.C16_blocks_literal_refuted — the flag is internal, no accessor exposes it); besides that what is machine-checked are the supporting invariants (root blocks are cut at ends bounded by the line read; shifting by a blank prefix); the property itself is decided by the re-parse oracle on the implementation and by the full-tree correspondence"]
 
     def jobs(self, seed, tier):
         cases = [(d, "") for d in docs(seed, tier, quick=3000, thorough=150000)]
@@ -780,10 +780,13 @@ class C08(Check):
                    "Extract and Rewrite are functions of the blocks, so equality of trees and reference map follows from equality of the blocks"]
 
     def jobs(self, seed, tier):
-        ds = docs(seed, tier, quick=1800, thorough=80000, bad=0.1)
+        # the fixed template families are about block/inline structure; here every document costs a whole streaming run of the
+        # model, so only a third of the corpus precedes the generated stream
+        ds = gen.corpus()[::3] + docs(seed, tier, quick=1800, thorough=80000, bad=0.1, corpus_first=False)
         rng = random.Random(seed ^ 0x8192)
         for _ in range(size(tier, 6, 100)):
-            pre = gen.soup(rng, nmax=8) * (8192 // 20)
+            # plain filler: the point is the position of the chunk boundary, not the cost of parsing 8 KiB of brackets
+            pre = rng.choice([b"lorem ipsum dolor\n", b"> quoted line\n", b"- item\n", b"    code line\n", b"a *b* `c` d\n", b"word " * 9 + b"\n"]) * 600
             ds.append((pre + b"\n")[: 8192 - rng.randrange(4)] + rng.choice([b"\r\n", b"\r", b"\n", b"\x00\x00", "é".encode()]) + gen.soup(rng))
         cases = schedules(seed, ds)
 
